@@ -277,5 +277,6 @@ pub fn property() -> Property {
         assumptions: vec!["behaviour under RUN is compared up to a 3000-turn budget"],
         families,
         prelude: None,
+        epilogue: None,
     }
 }
